@@ -108,11 +108,13 @@ func ctorFacts(p *pkgInfo) []ctorFact {
 		if varName == "" || typ == "" {
 			continue
 		}
+		// a field counts as overwritten only by an assignment that is a statement of the function body itself: one
+		// nested in an if/for/switch does not run on every call and leaves the previous user's value on a recycled object
 		assigned := map[string]bool{}
-		ast.Inspect(fd.Body, func(n ast.Node) bool {
-			as, ok := n.(*ast.AssignStmt)
+		for _, st := range fd.Body.List {
+			as, ok := st.(*ast.AssignStmt)
 			if !ok {
-				return true
+				continue
 			}
 			for _, l := range as.Lhs {
 				if se, ok := l.(*ast.SelectorExpr); ok {
@@ -121,8 +123,7 @@ func ctorFacts(p *pkgInfo) []ctorFact {
 					}
 				}
 			}
-			return true
-		})
+		}
 		var al []string
 		for a := range assigned {
 			al = append(al, a)
